@@ -768,10 +768,12 @@ class CatParameter(AbstractParameter, ParameterListener):
 
     @tensor.setter
     def tensor(self, tensor):
+        # split along the dimension the components are concatenated on
         start = 0
         for parameter in self._parameter_container.params():
-            parameter.tensor = tensor[..., start : (start + parameter.shape[-1])]
-            start += parameter.shape[-1]
+            size = parameter.shape[self._dim]
+            parameter.tensor = tensor.narrow(self._dim, start, size)
+            start += size
         self._need_update = True
 
     @property
